@@ -25,3 +25,36 @@ package gripper
 //@   ensures roundtrip: forall a:Str, b:Str, c:Str :: nodash(a) && nodash(b) && nodash(c) && gid == a + "-" + b + "-" + c ==>
 //@       result.3 == nil && result.0 == a && result.1 == c && result.2 == b
 //@   ensures total: forall a:Str, b:Str, c:Str :: nodash(b) && gid == a + "-" + b + "-" + c ==> result.3 == nil
+
+// ---- C15: write calls on a mapped graph are refused --------------------------------
+// Every mutator of the GraphInterface returns an error and touches nothing (no table
+// driver is called, no field of the graph is written): `pure` makes any write or any
+// call with effects in the body an undischarged frame obligation.
+//@ func (*TabularGraph).AddVertex
+//@   property C15
+//@   pure
+//@   ensures refused: result != nil
+//@ func (*TabularGraph).AddEdge
+//@   property C15
+//@   pure
+//@   ensures refused: result != nil
+//@ func (*TabularGraph).BulkAdd
+//@   property C15
+//@   pure
+//@   ensures refused: result != nil && rd(stream) == old(rd(stream))
+//@ func (*TabularGraph).DelVertex
+//@   property C15
+//@   pure
+//@   ensures refused: result != nil
+//@ func (*TabularGraph).DelEdge
+//@   property C15
+//@   pure
+//@   ensures refused: result != nil
+//@ func (*TabularGraph).AddVertexIndex
+//@   property C15
+//@   pure
+//@   ensures refused: result != nil
+//@ func (*TabularGraph).DeleteVertexIndex
+//@   property C15
+//@   pure
+//@   ensures refused: result != nil
